@@ -88,25 +88,18 @@ class BlockRowOperator(AbstractBlockOperator):
 
     def mv(self, x: PyTree[Inexact[Array, ' _b']]) -> PyTree[Inexact[Array, ' _a']]:
         tree = self._tree_map(lambda op, leaf: (op, leaf), x)
-
-        def func(value, op_leaf):  # type: ignore[no-untyped-def]
-            # get the first block evaluation
-            if (
-                isinstance(value, tuple)
-                and len(value) > 0
-                and isinstance(value[0], AbstractLinearOperator)
-            ):
-                value = value[0](value[1])
-            op, leaf = op_leaf
-            return jax.tree.map(jnp.add, value, op(leaf))
-
-        return jax.tree.reduce(
-            func,
+        op_leaves = jax.tree.leaves(
             tree,
             is_leaf=lambda op_leaf: isinstance(op_leaf, tuple)
             and len(op_leaf) > 0
             and isinstance(op_leaf[0], AbstractLinearOperator),
         )
+        # evaluate the first block, then accumulate the others (also correct for a single block)
+        op, leaf = op_leaves[0]
+        value = op(leaf)
+        for op, leaf in op_leaves[1:]:
+            value = jax.tree.map(jnp.add, value, op(leaf))
+        return value
 
     def transpose(self) -> AbstractLinearOperator:
         return BlockColumnOperator(self._tree_map(lambda op: op.T))
